@@ -997,6 +997,118 @@ def attached_stream(ctx):
         ctx.count('attached:random')
 
 
+def consumer_env():
+    """plasma slab, uniform profile and the three helpers of the consumer stream"""
+    from raysect.optical import World, Point3D, Vector3D
+    from raysect.optical.spectrum import Spectrum
+    from cherab.core.model.laser import SeldenMatobaThomsonSpectrum, UniformEnergyDensity
+    from cherab.tools.plasmas.slab import build_constant_slab_plasma
+    ne, te, energy = 8e19, 1e3, 2.5
+    world = World()
+    plasma = build_constant_slab_plasma(length=1, width=1, height=1, electron_density=ne, electron_temperature=te,
+                                        plasma_species=[], parent=world)
+    profile = UniformEnergyDensity(energy_density=energy, polarization=Vector3D(0, 1, 0))
+    point, obs = Point3D(0.5, 0, 0), Vector3D(1, 0, 0)      # 90° to the pointing (z) and to the polarisation (y)
+
+    def emission(spec):
+        model = SeldenMatobaThomsonSpectrum(profile, spec, plasma)
+        out = model.emission(point, obs, point, obs, Spectrum(600, 1200, 200))
+        return model, np.array(out.samples)
+
+    def expected(model, wl, powers):
+        e = Spectrum(600, 1200, 200)
+        for w, pw in zip(wl, powers):
+            e = model.calculate_spectrum(ne, te, energy * pw, w, 90., 90., e)
+        return np.array(e.samples)
+
+    def same(a, b):
+        scale = max(float(np.max(np.abs(b))), 1e-300)
+        return bool(np.all(np.abs(a - b) <= 1e-9 * np.abs(b) + 1e-12 * scale))
+
+    return emission, expected, same
+
+
+def consumer_stream(ctx, st, record, table=None):
+    """what the scattering model actually consumes from a spectrum (`power_mv`, `wavelengths_mv`, bin count — cdef
+    attributes invisible from Python) against the Python-visible attributes and the model:
+      emission through SeldenMatobaThomsonSpectrum.emission == Σ_bins calculate_spectrum(E·psd[bin]·Δλ, λ_bin)      (S)
+      … == Σ_bins calculate_spectrum(E·power_model[bin], λ_bin) with the Lean model's `powerList`                   (K)
+      on a range so narrow that all bins scatter alike, emission == (Σ power = 1)·calculate_spectrum(E, λ)         (S)
+    for coarse and fine binnings, lines narrower than a bin, single-bin spectra, very wide / narrow stddev, fresh and
+    after setter histories."""
+    rng = ctx.rng
+    kinds = {k['name']: k['binPsd'] for k in (table or {}).get('classes', [])}
+    emission, expected, same = consumer_env()
+    for it in range(ctx.n(160, 2500)):
+        gauss = it % 4 != 0
+        lo = rng.choice([1059.0, 1063.5, rng.uniform(400.0, 1100.0)])
+        n = rng.choice([1, 1, 2, 3, 4, 4, 10, 33, rng.randint(1, 80)])
+        mode = rng.choice(['coarse', 'fine', 'line-in-one-bin', 'wide', 'degenerate-range'])
+        if mode == 'degenerate-range':
+            width = rng.choice([1e-3, 4e-4])
+        else:
+            width = rng.choice([2.0, 0.5, 10.0, rng.uniform(0.05, 40.0)])
+        hi = lo + width
+        d = width / n
+        args = dict(min_wavelength=lo, max_wavelength=hi, bins=float(n))
+        cls = 'ConstantSpectrum'
+        if gauss:
+            cls = 'GaussianSpectrum'
+            sd = {'coarse': d * rng.uniform(0.3, 3.0), 'fine': d * rng.uniform(3.0, 30.0), 'line-in-one-bin': d * rng.uniform(0.01, 0.2),
+                  'wide': width * rng.uniform(1.0, 20.0), 'degenerate-range': width / rng.uniform(30.0, 60.0)}[mode]
+            mean = rng.choice([0.5 * (lo + hi), lo + rng.random() * width, lo + (rng.randrange(n) + rng.choice([0.5, 0.1, 0.93])) * d])
+            if mode == 'degenerate-range':
+                mean = 0.5 * (lo + hi) + rng.uniform(-0.1, 0.1) * width
+            args.update(mean=mean, stddev=sd)
+        spec = construct(cls, args)
+        hist = []
+        if it % 3 == 2 and mode != 'degenerate-range':          # reach the final parameters through the setters
+            for p_ in rng.sample(PARAMS[cls], min(3, len(PARAMS[cls]))):
+                v = {'bins': float(rng.choice([1, 2, 5, 9])), 'min_wavelength': lo - rng.uniform(0.01, 1.0), 'max_wavelength': hi + rng.uniform(0.01, 1.0),
+                     'mean': lo + rng.random() * width, 'stddev': d * rng.choice([0.05, 0.5, 5.0])}[p_]
+                if apply_op(spec, cls, p_, v) == 'ok':
+                    hist.append((p_, v))
+        g = {p_: float(getattr(spec, p_)) for p_ in PARAMS[cls]}
+        wl = [float(x) for x in spec.wavelengths]
+        psd = [float(x) for x in spec.power_spectral_density]
+        dl = float(spec.delta_wavelength)
+        model, got = emission(spec)
+        rep = dict(kind='consumer', cls=cls, args=args, ops=hist)
+        want = expected(model, wl, [p_ * dl for p_ in psd])
+        if not same(got, want):
+            tot = float(got.sum() / want.sum()) if want.sum() else float('nan')
+            ctx.fail('C18:LaserSpectrum:power-read-by-scattering-model!=power_spectral_density*delta',
+                     '%s(%r) after %r: SeldenMatobaThomsonSpectrum.emission differs from Σ_bins calculate_spectrum(E·psd[bin]·Δλ, λ_bin) '
+                     '(total scattered / expected = %.6f): the per-bin power the model reads is not the binned spectrum' % (cls, g, hist, tot), rep)
+        if mode == 'degenerate-range' and (not gauss or (g['min_wavelength'] <= g['mean'] - 9 * g['stddev'] and g['mean'] + 9 * g['stddev'] <= g['max_wavelength'])):
+            one = expected(model, [0.5 * (g['min_wavelength'] + g['max_wavelength'])], [1.0])
+            r = float(got.sum() / one.sum())
+            if abs(r - 1.0) > 1e-4:
+                ctx.fail('C18:LaserSpectrum:total-power-seen-by-scattering-model!=1',
+                         '%s(%r): all bins scatter alike (range %.1e nm) yet emission / calculate_spectrum(unit power) = %.6f' % (cls, g, width, r), rep)
+        # K: the model's per-bin power through the same consumer
+        kind_ = 'g' if gauss else ('d' if kinds.get('ConstantSpectrum') == 'constDensity' else 'c')
+        line = 'pow %s %s %s %d' % (kind_, f2b(g['min_wavelength']), f2b(g['max_wavelength']), int(g['bins']))
+        if gauss:
+            line += ' %s %s' % (f2b(g['mean']), f2b(g['stddev']))
+
+        def judge(o, model=model, wl=wl, got=got):
+            pm = [b2f(t) for t in o[0].split()]
+            if len(pm) != len(wl):
+                return 'bin count model=%d impl=%d' % (len(pm), len(wl))
+            w2 = expected(model, wl, pm)
+            scale = max(float(np.max(np.abs(w2))), 1e-300)
+            # the erf of the driver and of libm differ by ≤1.1e-15 per value: absolute room of 1e-14·E·calculate_spectrum
+            if not bool(np.all(np.abs(got - w2) <= 1e-8 * np.abs(w2) + 1e-11 * scale)):
+                return 'emission through the scattering model differs from the model bin powers %r' % (pm[:6],)
+            return None
+        st.add([line], judge, 'consumer:' + cls, dict(cls=cls, params=g, ops=hist))
+        record['traces'] += 1
+        ctx.count('consumer:%s:%s' % (cls, mode))
+        ctx.case(key=('consumer', cls, mode, int(g['bins']), f2b(g['min_wavelength']), f2b(g.get('stddev', 0.0))),
+                 sample=dict(cls=cls, params=g, ops=hist, mode=mode) if rng.random() < 0.02 else None)
+
+
 def integrals(ctx):
     """S: cross-section / volume integrals of the real energy density"""
     rng = ctx.rng
@@ -1274,6 +1386,17 @@ def replay_one(ctx, rep, signature=None):
         bad = attached_play([tuple(x) for x in rep['spec']], tuple(rep.get('init', [0])), [tuple(o) for o in rep['ops']])
         if bad is not None:
             ctx.fail(signature or 'C18:Laser:attached->%s' % bad[1], bad[2], rep)
+    elif kind == 'consumer':
+        emission, expected, same = consumer_env()
+        spec = construct(rep['cls'], rep['args'])
+        for p_, v_ in rep.get('ops', []):
+            apply_op(spec, rep['cls'], p_, v_)
+        model, got = emission(spec)
+        dl = float(spec.delta_wavelength)
+        want = expected(model, [float(x) for x in spec.wavelengths], [float(x) * dl for x in spec.power_spectral_density])
+        if not same(got, want):
+            ctx.fail(signature or 'C18:LaserSpectrum:power-read-by-scattering-model!=power_spectral_density*delta',
+                     'emission / expected = %.6f' % float(got.sum() / want.sum()), rep)
     elif kind == 'geometry_identity':
         pr = construct(rep['cls'], rep['args'])
         if set(map(id, pr.generate_geometry())) & set(map(id, pr.generate_geometry())):
@@ -1322,7 +1445,7 @@ def run(ctx):
     erf_stream(ctx, st, record)
     import traceback
     for name, fn in (('targeted', lambda: targeted(ctx, st, record, exp)), ('defaults', lambda: defaults_stream(ctx, st, record, dflt)),
-                     ('histories', lambda: histories(ctx, st, record)), ('attached', lambda: attached_stream(ctx)),
+                     ('histories', lambda: histories(ctx, st, record)), ('attached', lambda: attached_stream(ctx)), ('consumer', lambda: consumer_stream(ctx, st, record, table)),
                      ('segments', lambda: segments_stream(ctx, st, record)), ('spectra', lambda: spectra_stream(ctx, st, record, table)),
                      ('integrals', lambda: integrals(ctx))):
         try:
